@@ -815,8 +815,6 @@ def note_case(res: SuiteResult, case: dict, trace: list[str]) -> None:
         if t.startswith("add:"):
             res.hit("add:" + {"ok": "append", "ok+random": "skip"}.get(
                 t[4:], "replace" if t.startswith("add:ok+random+randint") else t[4:]))
-            if case["kind"] in ("seq", "dseq") and t == "add:ok":
-                pass
         elif t.startswith("ctor:"):
             res.hit(t)
         else:
